@@ -2,8 +2,8 @@ package rules
 
 import (
 	"fmt"
-	"os"
 	"math/bits"
+	"os"
 	"sort"
 	"strings"
 
@@ -100,19 +100,19 @@ const inf = 1 << 30
 type vkind uint8
 
 const (
-	vTop    vkind = iota
-	vInt          // finite set of small ints (enums, bools as 0/1, nil-ness as 0=nil/1=non-nil), or top
-	vByte         // a byte read from the input (or any byte-typed value): set + optional coordinate link
-	vMark         // value of pos-start at some earlier time (+ constant offset)
-	vRuneLen      // length returned by PeekRune: 1 <= n <= max(S,1) at the time of the peek
-	vAtomLen      // len(<lexer field>) : symbolic non-negative length
-	vSlice        // result of Lexeme()/Shift(): length bounds fixed at creation
-	vTuple        // multi-value
-	vFunc         // function value (bound method / closure)
-	vArr          // pointer to a small local array / slice of it (variadic arguments)
-	vCmp          // boolean defined by a comparison (refines its operand when branched on)
-	vErrAt        // result of Err()/PeekErr(k): nil-ness linked to the end-of-input position
-	vTable        // boolean read from a [256]bool table indexed by a byte value
+	vTop     vkind = iota
+	vInt           // finite set of small ints (enums, bools as 0/1, nil-ness as 0=nil/1=non-nil), or top
+	vByte          // a byte read from the input (or any byte-typed value): set + optional coordinate link
+	vMark          // value of pos-start at some earlier time (+ constant offset)
+	vRuneLen       // length returned by PeekRune: 1 <= n <= max(S,1) at the time of the peek
+	vAtomLen       // len(<lexer field>) : symbolic non-negative length
+	vSlice         // result of Lexeme()/Shift(): length bounds fixed at creation
+	vTuple         // multi-value
+	vFunc          // function value (bound method / closure)
+	vArr           // pointer to a small local array / slice of it (variadic arguments)
+	vCmp           // boolean defined by a comparison (refines its operand when branched on)
+	vErrAt         // result of Err()/PeekErr(k): nil-ness linked to the end-of-input position
+	vTable         // boolean read from a [256]bool table indexed by a byte value
 )
 
 type AbsVal struct {
@@ -124,19 +124,19 @@ type AbsVal struct {
 	linked bool
 	coord  int // relative coordinate of the byte (valid while linked)
 	// vMark: value interval and distance of the current position from the mark
-	mlo, mhi int // bounds of the mark's value
-	dlo, dhi int // bounds of (L_now - mark value)
-	epoch    int // start epoch at which the mark was taken
-	dec      uint8 // number of times a lower bound of this value decreased at a join (widening trigger)
-	fresh    bool // no cursor movement since the value was created (vMark, vRuneLen, vSlice, kOffset)
+	mlo, mhi int       // bounds of the mark's value
+	dlo, dhi int       // bounds of (L_now - mark value)
+	epoch    int       // start epoch at which the mark was taken
+	dec      uint8     // number of times a lower bound of this value decreased at a join (widening trigger)
+	fresh    bool      // no cursor movement since the value was created (vMark, vRuneLen, vSlice, kOffset)
 	snap     *markSnap // vMark: cursor facts at the marked position
 	snapOff  int       // vMark: constant added to the mark since the snapshot
 	lenOf    ssa.Value // kLenOf: the slice value whose length this is
 	// vRuneLen / vSlice
-	seq        int // move sequence number at creation
-	runeOK     bool
+	seq          int // move sequence number at creation
+	runeOK       bool
 	lenLo, lenHi int
-	marksAt    map[ssa.Value]AbsVal // vSlice: every live mark when the slice was taken
+	marksAt      map[ssa.Value]AbsVal // vSlice: every live mark when the slice was taken
 	// vAtomLen
 	atom string
 	// vTuple
@@ -148,10 +148,10 @@ type AbsVal struct {
 	arr      *absArr
 	alo, ahi int // slice window into arr
 	// vCmp
-	cmpX   ssa.Value
-	cmpOp  string // "==", "!=", "<", "<=", ">", ">="
-	cmpK   int64
-	cmpY   ssa.Value // comparison against another value (byte vs byte); nil when against constant
+	cmpX  ssa.Value
+	cmpOp string // "==", "!=", "<", "<=", ">", ">="
+	cmpK  int64
+	cmpY  ssa.Value // comparison against another value (byte vs byte); nil when against constant
 	// vErrAt
 	errOff int // Err() == PeekErr(0)
 	// vTable
@@ -434,7 +434,6 @@ func joinMarksAt(a, b map[ssa.Value]AbsVal) map[ssa.Value]AbsVal {
 	return out
 }
 
-
 func eqSnap(a, b *markSnap) bool {
 	if a == b {
 		return true
@@ -499,30 +498,30 @@ func joinSnap(a, b *markSnap) *markSnap {
 
 type State struct {
 	// cursor, in coordinates relative to the current position
-	E        int  // the terminator lies at relative coordinate >= E (E >= 0)
-	atEOF    bool // the terminator lies exactly at relative coordinate E
-	P        int  // pos >= P (index of the current position in the buffer)
-	Lmin     int  // bounds of pos-start
-	Lmax     int
-	bytes    map[int]ByteSet // known byte sets by relative coordinate (absent = any)
-	eqc      map[int]int     // coordinates known to hold equal bytes (symmetric)
-	atLen    map[string]bool // facts "E >= atom" valid at the current position
-	atomPos  map[string]bool // facts "atom >= 1"
-	epoch    int             // number of Shift/Skip/Reset so far
-	decL, decD int           // how often Lmin / dispLo decreased at joins (widening trigger)
-	moves    int             // number of cursor-changing operations on this path (capped)
-	stale    int             // number of in-place rewrites of consumed bytes so far
-	dispLo   int             // net displacement of pos since the entry of the analysed entry point
-	dispHi   int
-	lex      ByteSet // union of possible values of all bytes moved over since the last Shift/Skip
-	lexKnown bool    // lex is meaningful (false after moves over unknown amounts backwards etc.)
-	lastShift bool   // the last cursor operation was Shift()
-	shifts   int     // number of Shift/Skip executed on this path (capped)
-	skips    int
-	havoc    bool    // cursor state was invalidated by an opaque call
-	errMsg   string  // message of the error assigned on this path (for obligation keys)
-	errSet   int     // lexer's own err field on this path: 0 unknown, 1 assigned non-nil, 2 known nil
-	loopDisp map[*ssa.BasicBlock]int // lower bound of net displacement since the loop header was last passed
+	E          int  // the terminator lies at relative coordinate >= E (E >= 0)
+	atEOF      bool // the terminator lies exactly at relative coordinate E
+	P          int  // pos >= P (index of the current position in the buffer)
+	Lmin       int  // bounds of pos-start
+	Lmax       int
+	bytes      map[int]ByteSet // known byte sets by relative coordinate (absent = any)
+	eqc        map[int]int     // coordinates known to hold equal bytes (symmetric)
+	atLen      map[string]bool // facts "E >= atom" valid at the current position
+	atomPos    map[string]bool // facts "atom >= 1"
+	epoch      int             // number of Shift/Skip/Reset so far
+	decL, decD int             // how often Lmin / dispLo decreased at joins (widening trigger)
+	moves      int             // number of cursor-changing operations on this path (capped)
+	stale      int             // number of in-place rewrites of consumed bytes so far
+	dispLo     int             // net displacement of pos since the entry of the analysed entry point
+	dispHi     int
+	lex        ByteSet // union of possible values of all bytes moved over since the last Shift/Skip
+	lexKnown   bool    // lex is meaningful (false after moves over unknown amounts backwards etc.)
+	lastShift  bool    // the last cursor operation was Shift()
+	shifts     int     // number of Shift/Skip executed on this path (capped)
+	skips      int
+	havoc      bool                    // cursor state was invalidated by an opaque call
+	errMsg     string                  // message of the error assigned on this path (for obligation keys)
+	errSet     int                     // lexer's own err field on this path: 0 unknown, 1 assigned non-nil, 2 known nil
+	loopDisp   map[*ssa.BasicBlock]int // lower bound of net displacement since the loop header was last passed
 
 	vals  map[ssa.Value]*AbsVal
 	heap  map[string]AbsVal
@@ -1045,7 +1044,7 @@ func (s *State) joinInto(o *State, wl int) bool {
 	if s.epoch != o.epoch {
 		// different number of collapses: marks of the other epoch are dropped
 		for v, avP := range s.vals {
-		av := *avP
+			av := *avP
 			if av.k == vMark {
 				delete(s.vals, v)
 				changed = true
